@@ -8,7 +8,9 @@ package c11
 // never raise a false alarm). This is the one place where a check reads the wall clock.
 
 import (
+	sdkmath "cosmossdk.io/math"
 	"fmt"
+	coinswaptypes "mods.irisnet.org/modules/coinswap/types"
 	"os"
 	"path/filepath"
 	"regexp"
@@ -140,6 +142,10 @@ func (h *hist) clockTemplate(step int) (blockOp, bool) {
 	case 5:
 		return blockOp{Dt: tiny, Txs: []txSpec{
 			{1, h.enc(&servicetypes.MsgBindService{ServiceName: "usdtsvc", Provider: u(1), Deposit: coins("stake", 50000), Pricing: `{"price":"10usdt"}`, QoS: 1, Options: "{}", Owner: u(1)})},
+			// an order whose deadline lies one second after the last block's time: whether it is still valid is a matter
+			// of block time alone
+			{3, h.enc(&coinswaptypes.MsgAddLiquidity{MaxToken: sdk.NewInt64Coin("btc", 2000), ExactStandardAmt: sdkmath.NewInt(1000), MinLiquidity: sdkmath.OneInt(),
+				Deadline: h.n.Time.Unix() + 1, Sender: u(3)})},
 		}}, true
 	case 6:
 		return blockOp{Dt: tiny, Txs: []txSpec{
